@@ -681,6 +681,19 @@ pub fn generate(rng: &mut Rng, prop: &str, corpus: &[String]) -> CliCheck {
             // unbalanced source
             code_args.push(vec![rng.pick(&["[", "]", "[[]", "+]+["]).to_string()]);
         }
+        5 => {
+            // a multi-byte character cut in two by a file boundary: neither file is UTF-8 on
+            // its own, whatever their concatenation looks like
+            let ch = rng.pick(&["é", "€", "𝄞"]).as_bytes().to_vec();
+            let cut = rng.urange(1, ch.len() - 1);
+            let mut first = b"+".to_vec();
+            first.extend_from_slice(&ch[..cut]);
+            let mut second = ch[cut..].to_vec();
+            second.extend_from_slice(b"+.");
+            files.push(("half1.bf".into(), FileKind::Bytes(first)));
+            files.push(("half2.bf".into(), FileKind::Bytes(second)));
+            code_args.push(vec!["-f".into(), "half1.bf".into(), "-f".into(), "half2.bf".into()]);
+        }
         _ => {}
     }
     // a faulty or extra file argument may sit anywhere among the code arguments
